@@ -149,7 +149,7 @@ package redisemu
 //@ requires rl != nil && 0 <= rl.pos && rl.pos <= len(rl.content) && rl.nextPos < 0
 //@ requires length >= 0
 //@ modifies respDeserializer.nextPos
-//@ ensures ok: valid ==> rl.nextPos == rl.pos+length+2 && rl.nextPos <= len(rl.content) && rl.content[rl.nextPos-2] == 13 && rl.content[rl.nextPos-1] == 10
+//@ ensures ok: valid ==> rl.nextPos == rl.pos+length+2 && rl.pos+2 <= rl.nextPos && rl.nextPos <= len(rl.content) && rl.content[rl.nextPos-2] == 13 && rl.content[rl.nextPos-1] == 10
 //@ ensures line: valid ==> len(line) == length && all(j, 0, length, line[j] == rl.content[rl.pos+j])
 //@ ensures others: forall r *respDeserializer :: r != rl ==> r.nextPos == old(r.nextPos)
 
